@@ -464,7 +464,7 @@ fn cb_programs(rec: &Rec) -> Vec<Vec<CbOp>> {
         vec![CbOp::Delete, CbOp::SetRawName(nm("x"))],
         vec![],
     ];
-    // the record's present owner once more: byte for byte, with the case of every letter flipped, and as text
+    // the record's present owner once more: with the case of every letter flipped, and as text
     // in capitals (a change the lowercase name accessor cannot show, the packet bytes can)
     if rec.owner.len() > 1 && rec.owner.len() <= 255 {
         let mut flipped = rec.owner.clone();
@@ -479,7 +479,6 @@ fn cb_programs(rec: &Rec) -> Vec<Vec<CbOp>> {
             i += 1 + l;
         }
         v.push(vec![CbOp::SetRawName(flipped), CbOp::Name]);
-        v.push(vec![CbOp::SetRawName(rec.owner.clone()), CbOp::Name]);
         let text = refmodel::msg::dotted(&rec.owner);
         if text.bytes().all(|b| b.is_ascii_alphanumeric() || b == b'.' || b == b'-' || b == b'_') {
             v.push(vec![CbOp::SetName(text.to_ascii_uppercase().into_bytes(), vec![]), CbOp::Name]);
